@@ -137,7 +137,7 @@ class Seams:
         clock = _Clock(self.sim)
         fake = {"socket_module": self.net.mod, "socket_class": self.net.mod.socket,
                 "gethostbyname": self.net.mod.gethostbyname, "getaddrinfo": self.net.mod.getaddrinfo,
-                "gethostname": self.net.mod.gethostname, "create_connection": self._no_create_connection,
+                "gethostname": self.net.mod.gethostname, "create_connection": self.net.mod.create_connection,
                 "urandom": self._urandom, "os_module": _OsProxy(self._urandom), "time_module": clock,
                 "time_func": clock.time}
         for mod, attr, kind in _SEAMS:
